@@ -387,11 +387,56 @@ def r11h(ctx):
             ctx.report("R11h", f, b, norm(b, 60),
                        f"{f.ident} parses XML with `{norm(b, 50)}`: white-space-only text nodes (the blank between two inline elements), comments or CDATA are "
                        f"dropped, so the tree that is indented, saved or cloned is not the document")
+    # module-level statements (a parser built once and shared)
+    for m in repo.modules.values():
+        top = [st for st in m.tree.body if not isinstance(st, (ast.FunctionDef, ast.AsyncFunctionDef, ast.ClassDef))]
+        for st in top:
+            for b in _lossy_parsers(st):
+                n += 1
+                ctx.instance("R11h", f"{m.relpath}:<module>", f"{norm(b, 50)} at module level", ok=False, nontrivial=True, line=b.lineno)
+                ctx.report("R11h", m, b, norm(b, 60),
+                           f"{m.relpath} builds a parser with `{norm(b, 50)}` at module level: everything parsed through it loses white-space-only text nodes "
+                           f"(the blank between two inline elements), comments or CDATA")
     if n == 0:
         raise AnalysisError("R11h: no parse call found in the package")
     got = {fn.name: len(_lossy_parsers(fn)) for fn in ast.parse(_FIXTURE_H).body}
     if got != {"bad": 1, "ok": 0}:
         raise AnalysisError(f"R11h fixture: lossy-parser detector broken: {got}")
+
+
+def r11i(ctx):
+    """Every packaging serialises the same element structure: the flat-XML writer replaces each image by its own new node.
+
+    `Container._xml_content` swaps every `draw:image` for an inlined (base64) copy with `parent.replace(old, new)`.  An lxml node has one
+    parent: handing the same `new` node to a second replace() moves it out of the first frame, which is left empty — the flat XML then
+    lacks a picture the zip has.  Rule: the node given to each replace()/append()/insert() inside the image loop is created in that same
+    iteration (a call result, or a local assigned from a call on every path from the loop head), not fetched from a cache that outlives it.
+    """
+    from ..paths import enclosing_loops
+    repo = ctx.repo
+    ctx.rule("R11i", "the flat-XML writer gives every replaced image a node created in the same iteration", floor=1)
+    f = repo.func("Container._xml_content")
+    cfg = cfg_of(f)
+    reps = [c for c in walk_no_nested(f.node) if isinstance(c, ast.Call) and call_name(c) == "replace" and len(c.args) == 2 and enclosing_loops(c)]
+    if not reps:
+        raise AnalysisError("R11i: no replace() inside a loop in Container._xml_content")
+    for c in reps:
+        lp = enclosing_loops(c)[0]
+        new_node = c.args[1]
+        ok = False
+        if isinstance(new_node, ast.Call):
+            ok = True
+        elif isinstance(new_node, ast.Name):
+            defs = [node_of(cfg, a) for a in ast.walk(lp) if isinstance(a, ast.Assign) and isinstance(a.targets[0], ast.Name) and a.targets[0].id == new_node.id
+                    and isinstance(a.value, ast.Call) and not (isinstance(a.value.func, ast.Attribute) and a.value.func.attr in ("get", "pop", "setdefault"))]
+            first = node_of(cfg, lp.body[0])
+            ok = bool(defs) and cfg.path_avoiding(first, node_of(cfg, c), defs, follow_exc=False) is None
+        ctx.instance("R11i", f"{f.file}:{f.ident}", f"{norm(c, 50)}: replacement " + ("created in this iteration" if ok else "may be a node created for another image"),
+                     ok=ok, nontrivial=True, line=c.lineno)
+        if not ok:
+            ctx.report("R11i", f, c, norm(c, 60),
+                       "the flat-XML writer can hand one and the same new node to several replace() calls: lxml moves the node, so every frame but the last loses its image "
+                       "and the flat XML no longer has the element structure the zip and folder packagings have")
 
 
 def run(ctx):
@@ -402,6 +447,7 @@ def run(ctx):
     r11f(ctx)
     r11g(ctx)
     r11h(ctx)
+    r11i(ctx)
 
 
 from ..selftest import Seed, unparse_seed  # noqa: E402
@@ -410,6 +456,12 @@ _CT = "src/odfdo/container.py"
 _XP = "src/odfdo/xmlpart.py"
 _DOC = "src/odfdo/document.py"
 SEEDS = [
+    Seed("flat XML caches the encoded image element per href", "fault", _CT,
+         "                    for elem in images:\n                        encoded = self._encoded_image(elem)\n                        elem.getparent().replace(elem, encoded)",
+         "                    done = {}\n                    for elem in images:\n                        href = elem.get('href')\n                        if href not in done:\n                            done[href] = self._encoded_image(elem)\n                        elem.getparent().replace(elem, done[href])", "R11i"),
+    Seed("fragments parsed with a module-level blank-dropping parser", "fault", "src/odfdo/element.py",
+         "        root = fromstring(NAMESPACES_XML % str_to_bytes(tag))\n        return root[0]", "        root = fromstring(NAMESPACES_XML % str_to_bytes(tag), _FRAGMENT_PARSER)\n        return root[0]", "R11h",
+         edits=[("src/odfdo/element.py", '_re_anyspace = re.compile(r" +")\n', '_re_anyspace = re.compile(r" +")\nfrom lxml.etree import XMLParser\n_FRAGMENT_PARSER = XMLParser(remove_blank_text=True)\n')]),
     Seed("pretty tree re-parsed without blank text", "fault", _XP,
          "        tree = self._get_tree()\n        # indent a copy: the parsed part must stay as it is\n        root = deepcopy(tree.getroot())\n",
          "        from lxml.etree import XMLParser, fromstring\n        root = fromstring(self.serialize(), XMLParser(remove_blank_text=True))\n", "R11h"),
